@@ -5,7 +5,19 @@ compared with Gen/Layout.v."""
 from .common import Check, Err, clist, cz, eval_terms
 from . import dsl, exprs, ebpf_exec, isa_check, sim_kernel
 
+import struct
+
 FMTS = ["B", "H", "I", "Q", "b", "h", "i", "q", "x"]
+ARRAYS_LOCAL = ["4I", "2q", "16B", "2H"]          # power-of-two sized array formats
+ARRAYS_MAP = ARRAYS_LOCAL + ["3B", "5H", "3I", "64I"]
+
+
+def fsize(fmt):
+    return 8 if fmt == "x" else struct.calcsize(fmt)
+
+
+def is_array(fmt):
+    return fmt[0].isdigit()
 
 
 def k_alias(case, o):
@@ -23,26 +35,29 @@ class C04(Check):
     known_classes = {"subprogram_locals_alias": k_alias}
 
     def make_case(self, rng):
-        def decls(prefix, lo, hi):
-            return [(f"{prefix}{k}", rng.choice(FMTS)) for k in range(rng.randint(lo, hi))]
-        classes = [{"locals": decls("l", 0, 3), "arrays": decls("g", 0, 2)} for _ in range(rng.randint(0, 2))]
+        def decls(prefix, lo, hi, arr):
+            return [(f"{prefix}{k}", rng.choice(FMTS * 3 + arr)) for k in range(rng.randint(lo, hi))]
+        classes = [{"locals": decls("l", 0, 3, ARRAYS_LOCAL), "arrays": decls("g", 0, 2, ARRAYS_MAP)} for _ in range(rng.randint(0, 2))]
         insts = [rng.randrange(len(classes)) for _ in range(rng.randint(1, 2))] if classes else []
-        case = {"main": {"locals": decls("a", 1, 5), "arrays": decls("m", 0, 4)}, "classes": classes, "insts": insts}
+        case = {"main": {"locals": decls("a", 1, 5, ARRAYS_LOCAL), "arrays": decls("m", 0, 4, ARRAYS_MAP)}, "classes": classes, "insts": insts}
         owners = ["main"] + [f"s{i}" for i in range(len(insts))]
         allv = []
         for o in owners:
             spec = case["main"] if o == "main" else classes[insts[int(o[1:])]]
             for n, f in spec["locals"] + spec["arrays"]:
                 allv.append((o, n, f))
-        case["init"] = {f"{o}.{n}": exprs.rand_value(rng, "q" if f == "x" else f) for o, n, f in allv}
+        case["init"] = {f"{o}.{n}": (rng.randrange(1, 256) if is_array(f) else exprs.rand_value(rng, "q" if f == "x" else f)) for o, n, f in allv}
         stmts = []
-        for _ in range(rng.randint(1, 4)):
+        scal = [v for v in allv if not is_array(v[2])]
+        for _ in range(rng.randint(1, 4) if scal else 0):
+            allv_, allv = allv, scal
             o, n, f = rng.choice(allv)
             if rng.random() < 0.6:
                 stmts.append(["setc", o, n, exprs.rand_value(rng, "i" if f == "x" else f)])
             else:
                 o2, n2, f2 = rng.choice(allv)
                 stmts.append(["sete", o, n, rng.choice(["+", "-", "*", "&", "|"]), o2, n2, rng.choice([1, 3, 255, 1000])])
+            allv = allv_
         case["stmts"] = stmts
         return case
 
@@ -126,19 +141,19 @@ class C04(Check):
                 c["_b"] = Err(6, f"{type(e).__name__}: {e}")
                 continue
             c["_b"] = b
-            stack = bytearray(128)
+            stack = bytearray(256)
             amap = bytearray(b["map_size"])
             # later entries first so that, where variables alias, the first declared value is what memory holds
             for name in reversed(list(b["layout"])):
                 st, f, addr = b["layout"][name]
-                data = dsl.to_bytes("q" if f == "x" else f, c["init"][name])
+                data = bytes([c["init"][name]]) * fsize(f) if is_array(f) else dsl.to_bytes("q" if f == "x" else f, c["init"][name])
                 if st == "local":
-                    stack[128 + addr:128 + addr + len(data)] = data
+                    stack[256 + addr:256 + addr + len(data)] = data
                 else:
                     amap[addr:addr + len(data)] = data
             if b["map_size"]:
                 # ArrayMap.init clears a scratch word when the program starts, before any declared variable can hold a value
-                stack[128 + b["scratch"]:128 + b["scratch"] + 4] = bytes(4)
+                stack[256 + b["scratch"]:256 + b["scratch"] + 4] = bytes(4)
             c["_mem"] = (bytes(stack), bytes(amap))
             c["_base"] = {n: self.read(b, stack, amap, n) for n in b["layout"]}
             ms = "[" + ebpf_exec.cbytes(amap) + "]" if b["map_size"] else "[]"
@@ -151,8 +166,10 @@ class C04(Check):
 
     def read(self, b, stack, amap, name):
         st, f, addr = b["layout"][name]
-        n = dsl.fmt_size(f)
-        data = bytes(stack[128 + addr:128 + addr + n]) if st == "local" else bytes(amap[addr:addr + n])
+        n = fsize(f)
+        data = bytes(stack[256 + addr:256 + addr + n]) if st == "local" else bytes(amap[addr:addr + n])
+        if is_array(f):
+            return int.from_bytes(data, "little")
         return dsl.from_bytes("q" if f == "x" else f, data)
 
     def run_impl(self, case):
@@ -176,7 +193,7 @@ class C04(Check):
         b = case["_b"]
         if isinstance(b, Err) or case.get("_o") is None:
             return None
-        sz = lambda l: clist([cz(dsl.fmt_size(f)) for _, f in l])
+        sz = lambda l: clist([cz(fsize(f)) for _, f in l])
         subs = clist([sz(case["classes"][i]["locals"]) for i in case["insts"]])
         arr = list(case["main"]["arrays"])
         for i in case["insts"]:
@@ -199,6 +216,10 @@ class C04(Check):
                 return True if ("no value" in o.what or "not enough registers" in o.what) else f"generator refused the program: {o.what}"
             return o.what
         b = case["_b"]
+        rng_ = sorted((st, addr, addr + fsize(f), n) for n, (st, f, addr) in b["layout"].items() if not (n.startswith("s") and st == "local"))
+        for (s0, a0, a1, n0), (s1, b0, b1, n1) in zip(rng_, rng_[1:]):
+            if s0 == s1 and b0 < a1:
+                return f"variables {n0} [{a0},{a1}) and {n1} [{b0},{b1}) share bytes; layout {b['layout']}"
         vals = dict(case["_base"])        # what memory holds when the program starts
         fm = {n: v[1] for n, v in b["layout"].items()}
 
@@ -223,16 +244,19 @@ class C04(Check):
 
         def rd(name):
             st, addr = lay[name]
+            if is_array(fm[name]):
+                n = fsize(fm[name])
+                return int.from_bytes(bytes(stack[256 + addr:256 + addr + n]) if st == "local" else bytes(amap[addr:addr + n]), "little")
             f = "q" if fm[name] == "x" else fm[name]
             n = dsl.fmt_size(f)
-            return dsl.from_bytes(f, bytes(stack[128 + addr:128 + addr + n]) if st == "local" else bytes(amap[addr:addr + n]))
+            return dsl.from_bytes(f, bytes(stack[256 + addr:256 + addr + n]) if st == "local" else bytes(amap[addr:addr + n]))
 
         def wr(name, v):
             st, addr = lay[name]
             f = "q" if fm[name] == "x" else fm[name]
             data = dsl.to_bytes(f, v)
             if st == "local":
-                stack[128 + addr:128 + addr + len(data)] = data
+                stack[256 + addr:256 + addr + len(data)] = data
             else:
                 amap[addr:addr + len(data)] = data
         unknown = set()
@@ -245,7 +269,7 @@ class C04(Check):
 
         def overlaps(a, b_):
             (sa, pa), (sb, pb) = lay[a], lay[b_]
-            return a != b_ and sa == sb and pa < pb + dsl.fmt_size(fm[b_]) and pb < pa + dsl.fmt_size(fm[a])
+            return a != b_ and sa == sb and pa < pb + fsize(fm[b_]) and pb < pa + fsize(fm[a])
         names = list(lay)
         only_sub_alias = all(a.startswith("s") and b_.startswith("s") and lay[a][0] == "local" for a in names for b_ in names if overlaps(a, b_))
         touched_unknown = {n for n in names if n in unknown or any(overlaps(n, u) for u in unknown)}
